@@ -19,7 +19,10 @@ OPS = ["recv0", "recv1", "post0", "post1", "pause", "resume", "start"]
 
 
 def jobs(tier):
-    return [{"name": "histories-%d" % n, "length": n} for n in ([6] if tier == "quick" else [6, 8])]
+    out = [{"name": "histories-%d" % n, "length": n} for n in ([6] if tier == "quick" else [6, 8])]
+    # the hand-over of a re-injected message is an operation of its own: pause / resume / start may come in between
+    out.append({"name": "histories-lane-%d" % (6 if tier == "quick" else 7), "length": 6 if tier == "quick" else 7, "lane_ops": True})
+    return out
 
 
 def run(eng, p):
@@ -43,6 +46,7 @@ def run(eng, p):
             sent.append((dst, msg.content))
     comp.message_sender = sender
     received, posted, hist = [], [], []
+    held_again = [False]
     started = False
     n = eng.choose(p["length"], "length") + 1
     try:
@@ -50,8 +54,18 @@ def run(eng, p):
             ops = list(OPS)
             if started:
                 ops.remove("start")
+            if p.get("lane_ops") and lane:
+                # re-injected messages wait in the agent's queue ahead of any newer reception (priority 19 < 20), but
+                # management orders (pause / resume, priority 10) and the start can still be handled before them
+                ops = [o for o in ops if not o.startswith("recv")] + ["lane"]
             op = ops[eng.choose(len(ops), "op_%d" % step)]
             hist.append(op)
+            if op == "lane":
+                src, msg = lane.pop(0)
+                if comp.is_paused or not comp._running:
+                    held_again[0] = True        # a re-injected message is handed over while paused / not started: held again
+                comp.on_message(src, msg, float(step))
+                continue
             if op.startswith("recv"):
                 tok = "m%d" % len(received)
                 received.append(("s" + op[-1], tok))
@@ -69,7 +83,7 @@ def run(eng, p):
             elif op == "start":
                 started = True
                 comp.start()
-            while lane:   # priority lane: before anything newer
+            while lane and not p.get("lane_ops"):   # priority lane: before anything newer
                 src, msg = lane.pop(0)
                 comp.on_message(src, msg, float(step))
         # finally let everything out: start if needed, resume
@@ -84,7 +98,8 @@ def run(eng, p):
         eng.fail("exception %s: %s" % (type(e).__name__, e), detail=traceback.format_exc(limit=-4))
         return
     eng.notes["outcome"] = {"history": hist, "handled": handled, "sent": sent}
+    from harness.common import region
     eng.prove(handled == received, "held/received messages not handled exactly once in reception order",
-              detail=str({"history": hist, "received": received, "handled": handled}))
+              regions=region(eng, "C19-reinjected-message-held-again", held_again[0]), detail=str({"history": hist, "received": received, "handled": handled}))
     eng.prove(sent == posted, "messages posted (possibly while paused) not sent exactly once in posting order",
               detail=str({"history": hist, "posted": posted, "sent": sent}))
